@@ -42,6 +42,7 @@ class Interp(Exec, Joins, Exprs, Subs, Calls, Methods, Assume):
             pat = pat.replace('$', '\\Z')
         self.isdigits_lang = RegexLang(pat, 0, self.B)
         self.iban_error = None
+        self.iban_letters = {}
         try:
             self.iban_structs = self.derive_iban()
         except Exception as e:
@@ -135,6 +136,20 @@ class Interp(Exec, Joins, Exprs, Subs, Calls, Methods, Assume):
                         return rebuilt
                     return ev(node2, dict(env, __rebuilt=rebuilt), {})
             raise Undecidable('no return')
+        # the class each structure letter stands for: the pattern built for the one-item structure 1!<letter>
+        self.iban_letters = {}
+        letters = set()
+        for line in open(os.path.join(self.prog.repo, 'stdnum', 'iban.dat'), encoding='utf-8'):
+            mb = _re.search(r'bban="([^"]*)"', line)
+            if mb:
+                letters.update(mm.group(2) for mm in sre.finditer(mb.group(1)))
+        for L in sorted(letters | {'n', 'a', 'c'}):
+            try:
+                lang = RegexLang(pattern_for('1!' + L), 0, self.B)
+            except (Undecidable, KeyError):
+                continue
+            if lang.ok and len(lang.alts) == 1 and len(lang.alts[0].items) == 1 and lang.alts[0].items[0].fixed():
+                self.iban_letters[L] = lang.alts[0].items[0].cls
         out = {}
         path = os.path.join(self.prog.repo, 'stdnum', 'iban.dat')
         for line in open(path, encoding='utf-8'):
